@@ -172,14 +172,20 @@ def _required_cfi_directives(
     results: List[_auxdata.CFIDirectiveType] = []
     procedure_directives: List[_auxdata.CFIDirectiveType] = []
     for _, directives in sorted(displacement_map.items()):
+        # Directives that share their location with .cfi_startproc are the
+        # procedure's initial state (and personality/LSDA); they describe the
+        # procedure, not the instructions being deleted.
+        in_initial_state = False
         for directive in directives:
             append_to = procedure_directives or results
             if directive[0] == ".cfi_startproc":
                 procedure_directives.append(directive)
+                in_initial_state = True
             elif directive[0] == ".cfi_endproc":
                 append_to.append(directive)
                 procedure_directives.clear()
-            elif directive[0] in (
+                in_initial_state = False
+            elif in_initial_state or directive[0] in (
                 ".cfi_remember_state",
                 ".cfi_restore_state",
             ):
